@@ -25,8 +25,13 @@ impl Visitor<Statement> for PrintLinter {
 
 impl Visitor<Print> for PrintLinter {
     fn visit(&mut self, print: &Print) -> VisitResult {
+        // the format is a string: a variable-length one, or a STRING * n variable or field
         if let Some(f) = &print.format_string
-            && f.expression_type() != ExpressionType::BuiltIn(TypeQualifier::DollarString)
+            && !matches!(
+                f.expression_type(),
+                ExpressionType::BuiltIn(TypeQualifier::DollarString)
+                    | ExpressionType::FixedLengthString(_)
+            )
         {
             return Err(LintError::TypeMismatch.at(f));
         }
